@@ -9,6 +9,34 @@ import LiquerProofs.Lemmas.EvalRef
 
 namespace Liquer
 
+/-! ### classes of queries and texts an evaluation stays in -/
+
+/-- link arguments of a parameter list: their queries are in the class `C`; the text a relative link is
+evaluated as (`parse(parent_query) + link`, encoded) is in the class `T` of texts -/
+def LinksIn (env : Env) (C : Query → Prop) (T : Str → Prop) (parent : Str) (ps : List Param) : Prop :=
+  ∀ lq pos, Param.link lq pos ∈ ps →
+    C lq ∧ ∀ h as f ab pq, lq = .mk [.transform h as f] ab → parse env.dec parent = some pq →
+      T ((Query.mk (pq.segments ++ [.transform h as f]) pq.absolute).encode Gen.escapeTable)
+
+/-- the texts the command of an action may sub-evaluate are in `T` -/
+def SubIn (env : Env) (T : Str → Prop) (a : Action) : Prop :=
+  ∀ nss sig, resolve env.reg nss a.name = some sig → ∀ input vars args x qt,
+    cmdSem sig.ns sig.name input vars args = .subeval x qt → T qt
+
+/-- a class `C` of queries and a class `T` of texts closed under everything an evaluation descends into:
+predecessors, link arguments and sub-evaluated texts of the last action, and the queries the texts of `T`
+parse to.  (`C = T = everything` is closed; so is the chain of predecessors of a link-free, `sub`-free query with
+`T = ∅`.) -/
+structure Closed (env : Env) (C : Query → Prop) (T : Str → Prop) : Prop where
+  pred : ∀ q p r, C q → q.predecessor = some (p, r) → C p
+  act : ∀ q p h a, C q → q.predecessor = some (p, some (.transform h [a] none)) →
+    LinksIn env C T q.preParent a.params ∧ SubIn env T a
+  text : ∀ t q, T t → parse env.dec t = some q → C q
+
+theorem LinksIn.tail {env : Env} {C : Query → Prop} {T : Str → Prop} {parent : Str} {p : Param} {ps : List Param}
+    (h : LinksIn env C T parent (p :: ps)) : LinksIn env C T parent ps :=
+  fun lq pos hm => h lq pos (List.mem_cons_of_mem _ hm)
+
 /-- the result `(w', o)` of an evaluation started in `w` refines the reference computation `f` -/
 def Refines (env : Env) (w w' : World) (o : Outcome) (f : Nat → Outcome × List Str) : Prop :=
   Sound env w' ∧
@@ -19,16 +47,16 @@ def RefinesP (env : Env) (w w' : World) (r : List PVal ⊕ Outcome) (f : Nat →
   (r ≠ .inr .unmodelled → ∃ m c', w'.calls = w.calls ++ c' ∧ c'.Sublist (f m).2 ∧ (f m).1 = r)
 
 /-- the four statements at one fuel level, for a class `C` of queries -/
-structure RefAt (env : Env) (C : Query → Prop) (n : Nat) : Prop where
-  text : ∀ w t ug, Sound env w →
+structure RefAt (env : Env) (C : Query → Prop) (T : Str → Prop) (n : Nat) : Prop where
+  text : ∀ w t ug, Sound env w → T t →
     Refines env w (evalText env n w t ug).1 (evalText env n w t ug).2 (fun m => refText env m t)
   q : ∀ w q raw extra input uc, Sound env w → C q → (uc = true → input = none) →
     Refines env w (evalQ env n w q raw extra input uc).1 (evalQ env n w q raw extra input uc).2
       (fun m => refQ env m q raw extra input)
-  act : ∀ w st a raw parent extra uc, Sound env w → LinksIn C a.params →
+  act : ∀ w st a raw parent extra uc, Sound env w → LinksIn env C T parent a.params → SubIn env T a →
     Refines env w (evalAction env n w st a raw parent extra uc).1 (evalAction env n w st a raw parent extra uc).2
       (fun m => refAction env m st a raw parent extra)
-  params : ∀ w ps raw parent, Sound env w → LinksIn C ps →
+  params : ∀ w ps raw parent, Sound env w → LinksIn env C T parent ps →
     RefinesP env w (evalParams env n w ps raw parent).1 (evalParams env n w ps raw parent).2
       (fun m => refParams env m ps raw parent)
 
@@ -80,8 +108,9 @@ theorem subOutcome_ne_unmodelled {st act raw sig xv x o} (h : subOutcome st act 
 
 /-! ### the call -/
 
-theorem call_refines {env : Env} {C : Query → Prop} {n : Nat} (ih : RefAt env C n) (w1 : World) (st act raw sig x)
-    (hS : Sound env w1) :
+theorem call_refines {env : Env} {C : Query → Prop} {T : Str → Prop} {n : Nat} (ih : RefAt env C T n) (w1 : World) (st act raw sig x)
+    (hS : Sound env w1)
+    (hsub : ∀ args y qt, cmdSem sig.ns sig.name st.data st.vars args = .subeval y qt → T qt) :
     Refines env w1 (evalCall env n w1 st act raw sig x).1 (evalCall env n w1 st act raw sig x).2
       (fun m => refCall env m st act raw sig x) := by
   unfold evalCall
@@ -111,7 +140,7 @@ theorem call_refines {env : Env} {C : Query → Prop} {n : Nat} (ih : RefAt env 
       · simp [refCall, hpa, hc]
       · simp [refCall, hpa, hc]
     · next y qtext hc =>
-      obtain ⟨hS3, hw⟩ := ih.text (w1.logCall st sig args) qtext true (hS.logCall _ _ _)
+      obtain ⟨hS3, hw⟩ := ih.text (w1.logCall st sig args) qtext true (hS.logCall _ _ _) (hsub _ _ _ hc)
       refine ⟨hS3.subW _ _, fun hne => ?_⟩
       obtain ⟨m, c3', hc1, hc2, hsim⟩ := hw (subOutcome_ne_unmodelled hne)
       refine ⟨m, callOf st sig args ++ c3', ?_, ?_, ?_⟩
@@ -121,8 +150,10 @@ theorem call_refines {env : Env} {C : Query → Prop} {n : Nat} (ih : RefAt env 
 
 /-! ### link arguments -/
 
-theorem link_refines {env : Env} {C : Query → Prop} {n : Nat} (ih : RefAt env C n) (w : World) (lq : Query)
-    (parent : Str) (hS : Sound env w) (hC : C lq) :
+theorem link_refines {env : Env} {C : Query → Prop} {T : Str → Prop} {n : Nat} (ih : RefAt env C T n) (w : World) (lq : Query)
+    (parent : Str) (hS : Sound env w) (hC : C lq)
+    (hT : ∀ h as f ab pq, lq = .mk [.transform h as f] ab → parse env.dec parent = some pq →
+      T ((Query.mk (pq.segments ++ [.transform h as f]) pq.absolute).encode Gen.escapeTable)) :
     Refines env w (evalLink env n w lq parent).1 (evalLink env n w lq parent).2 (fun m => refLink env m lq parent) := by
   unfold evalLink refLink
   split
@@ -130,13 +161,13 @@ theorem link_refines {env : Env} {C : Query → Prop} {n : Nat} (ih : RefAt env 
   · split
     · split
       · exact ⟨hS, by simp⟩
-      · exact ih.text w _ true hS
+      · next pq hpq => exact ih.text w _ true hS (hT _ _ _ _ _ rfl hpq)
     · exact ⟨hS, by simp⟩
 
 /-! ### parameters -/
 
-theorem params_step {env : Env} {C : Query → Prop} {n : Nat} (ih : RefAt env C n) (w : World) (ps : List Param)
-    (raw parent : Str) (hS : Sound env w) (hL : LinksIn C ps) :
+theorem params_step {env : Env} {C : Query → Prop} {T : Str → Prop} {n : Nat} (ih : RefAt env C T n) (w : World) (ps : List Param)
+    (raw parent : Str) (hS : Sound env w) (hL : LinksIn env C T parent ps) :
     RefinesP env w (evalParams env (n+1) w ps raw parent).1 (evalParams env (n+1) w ps raw parent).2
       (fun m => refParams env m ps raw parent) := by
   cases ps with
@@ -144,7 +175,7 @@ theorem params_step {env : Env} {C : Query → Prop} {n : Nat} (ih : RefAt env C
     rw [evalParams_nil]
     exact ⟨hS, fun _ => ⟨1, [], by simp, by simp [refParams_nil], by simp [refParams_nil]⟩⟩
   | cons p ps =>
-    have hL' : LinksIn C ps := fun lq pos h => hL lq pos (List.mem_cons_of_mem _ h)
+    have hL' : LinksIn env C T parent ps := hL.tail
     cases p with
     | str t pos =>
       rw [evalParams_str]
@@ -168,7 +199,8 @@ theorem params_step {env : Env} {C : Query → Prop} {n : Nat} (ih : RefAt env C
         exact ⟨m+1, c', h1, by simp only [refParams_str, hr]; exact h2, by simp only [refParams_str, hr]⟩
     | link lq pos =>
       rw [evalParams_link]
-      obtain ⟨hS1, hw⟩ := link_refines ih w lq parent hS (hL lq pos (List.mem_cons_self ..))
+      obtain ⟨hS1, hw⟩ := link_refines ih w lq parent hS (hL lq pos (List.mem_cons_self ..)).1
+        (hL lq pos (List.mem_cons_self ..)).2
       rcases hl : evalLink env n w lq parent with ⟨w1, o⟩
       rw [hl] at hS1 hw
       simp only at hS1 hw
@@ -228,8 +260,9 @@ theorem params_step {env : Env} {C : Query → Prop} {n : Nat} (ih : RefAt env C
 
 /-! ### actions -/
 
-theorem act_step {env : Env} {C : Query → Prop} {n : Nat} (ih : RefAt env C n) (w : World) (st : EState) (a : Action)
-    (raw parent : Str) (extra : Extra) (uc : Bool) (hS : Sound env w) (hL : LinksIn C a.params) :
+theorem act_step {env : Env} {C : Query → Prop} {T : Str → Prop} {n : Nat} (ih : RefAt env C T n) (w : World) (st : EState) (a : Action)
+    (raw parent : Str) (extra : Extra) (uc : Bool) (hS : Sound env w) (hL : LinksIn env C T parent a.params)
+    (hSub : SubIn env T a) :
     Refines env w (evalAction env (n+1) w st a raw parent extra uc).1 (evalAction env (n+1) w st a raw parent extra uc).2
       (fun m => refAction env m st a raw parent extra) := by
   rw [evalAction_succ]
@@ -261,6 +294,7 @@ theorem act_step {env : Env} {C : Query → Prop} {n : Nat} (ih : RefAt env C n)
           · simp only [refAction_succ, hns, hl, hr, hr1]; exact Outcome.sim_refl _
         | inl given =>
           obtain ⟨hS2, hw2⟩ := call_refines ih w1 st a raw sig (applyExtra extra given) hS1
+            (fun args y qt hc => hSub nss sig hr _ _ _ _ _ hc)
           refine ⟨hS2, fun hne => ?_⟩
           obtain ⟨m, c1', h1, h2, h3⟩ := hw (by simp)
           obtain ⟨m2, c2', g1, g2, g3⟩ := hw2 hne
@@ -278,8 +312,8 @@ theorem act_step {env : Env} {C : Query → Prop} {n : Nat} (ih : RefAt env C n)
 
 /-! ### texts -/
 
-theorem text_step {env : Env} {C : Query → Prop} {n : Nat} (hC : Closed env C) (ih : RefAt env C n) (w : World) (t : Str)
-    (ug : Bool) (hS : Sound env w) :
+theorem text_step {env : Env} {C : Query → Prop} {T : Str → Prop} {n : Nat} (hC : Closed env C T) (ih : RefAt env C T n) (w : World) (t : Str)
+    (ug : Bool) (hS : Sound env w) (hT : T t) :
     Refines env w (evalText env (n+1) w t ug).1 (evalText env (n+1) w t ug).2 (fun m => refText env m t) := by
   rw [evalText_succ]
   split
@@ -287,7 +321,7 @@ theorem text_step {env : Env} {C : Query → Prop} {n : Nat} (hC : Closed env C)
     refine ⟨hS, fun _ => ⟨1, [], by simp, by simp, ?_⟩⟩
     simp only [refText_succ, hp]; exact Outcome.sim_refl _
   · next q hp =>
-    obtain ⟨hS1, hw⟩ := ih.q w q t .none none ug hS (hC.text t q hp) (fun _ => rfl)
+    obtain ⟨hS1, hw⟩ := ih.q w q t .none none ug hS (hC.text t q hT hp) (fun _ => rfl)
     refine ⟨hS1, fun hne => ?_⟩
     obtain ⟨m, c', h1, h2, h3⟩ := hw hne
     exact ⟨m+1, c', h1, by simp only [refText_succ, hp]; exact h2, by simp only [refText_succ, hp]; exact h3⟩
@@ -298,7 +332,12 @@ theorem Refines.of_calls_eq {env : Env} {w0 w w' : World} {o f} (h : Refines env
     Refines env w w' o f := by
   unfold Refines at h ⊢; rw [hc] at h; exact h
 
-theorem pre_refines {env : Env} {C : Query → Prop} {n : Nat} (hC : Closed env C) (ih : RefAt env C n) (w : World)
+theorem Refines.intro {env : Env} {w w' : World} {o : Outcome} {f : Nat → Outcome × List Str}
+    (hS : Sound env w') (m : Nat) (c' : List Str) {o' : Outcome} {c : List Str} (hf : f m = (o', c))
+    (hc : w'.calls = w.calls ++ c') (hsub : c'.Sublist c) (hsim : Outcome.sim o o') : Refines env w w' o f :=
+  ⟨hS, fun _ => ⟨m, c', hc, by rw [hf]; exact hsub, by rw [hf]; exact hsim⟩⟩
+
+theorem pre_refines {env : Env} {C : Query → Prop} {T : Str → Prop} {n : Nat} (hC : Closed env C T) (ih : RefAt env C T n) (w : World)
     (q : Query) (raw : Str) (input : Option Val) (uc : Bool) (hS : Sound env w) (hCq : C q)
     (huc : uc = true → input = none) :
     Refines env w (evalPre env n w q raw input uc).1 (evalPre env n w q raw input uc).2
@@ -332,6 +371,19 @@ theorem store_ok {env : Env} {q : Query} (hcs : CanonStore env q) {M : Nat} {raw
   · rw [← EState.core_volatile hcc]; exact hv
   · rw [← EState.core_caching hcc]; exact hc
 
+theorem core_setQuery {a b : EState} (h : a.core = b.core) (k : Str) :
+    ({ a with query := k } : EState).core = ({ b with query := k } : EState).core := by
+  rw [EState.core_eq_withStatus h]; rfl
+
+theorem core_propagate {a b : EState} (h : a.core = b.core) (k : Str) :
+    ({ a with data := .none, query := k } : EState).core = ({ b with data := .none, query := k } : EState).core := by
+  rw [EState.core_eq_withStatus h]; rfl
+
+theorem core_file {a b : EState} (h : a.core = b.core) (f : Str) (k : Str) :
+    ({ a with filename := some f, extension := some (extensionOf f), query := k } : EState).core =
+      ({ b with filename := some f, extension := some (extensionOf f), query := k } : EState).core := by
+  rw [EState.core_eq_withStatus h]; rfl
+
 theorem refQ_succ_of_pre {env : Env} {M : Nat} {q : Query} {raw : Str} {extra : Extra} {input : Option Val}
     {o' : Outcome} {c0 : List Str} (hres : q.isRes = false) (hpre : refPre env M q input = (o', c0)) :
     refQ env (M+1) q raw extra input =
@@ -350,7 +402,7 @@ theorem Sound.admitW {env : Env} {w : World} (h : Sound env w) (uc : Bool) (key 
   · next huc =>
     split
     · next hadm =>
-      simp only [Bool.and_eq_true, Bool.not_eq_true', Bool.not_eq_eq_eq_not, Bool.not_true] at hadm huc
+      simp only [Bool.and_eq_true, Bool.not_eq_eq_eq_not, Bool.not_true] at hadm huc
       exact h.store st3 (hstore (by simpa using huc) hadm.1.2 hadm.2 hadm.1.1)
     · split
       · exact h.storeMeta _ _
@@ -367,12 +419,12 @@ theorem Sound.fileW {env : Env} {w : World} (h : Sound env w) (uc : Bool) (key :
   · next huc =>
     split
     · next hadm =>
-      simp only [Bool.and_eq_true, Bool.not_eq_true', Bool.not_eq_eq_eq_not, Bool.not_true] at hadm huc
+      simp only [Bool.and_eq_true, Bool.not_eq_eq_eq_not, Bool.not_true] at hadm huc
       exact h.store st2 (hstore (by simpa using huc) hadm.2 hadm.1)
     · exact h.remove _
 
-theorem q_step {env : Env} {C : Query → Prop} {n : Nat} (hC : Closed env C) (hcanon : ∀ q, C q → CanonOK env q)
-    (ih : RefAt env C n) (w : World) (q : Query) (raw : Str) (extra : Extra) (input : Option Val) (uc : Bool)
+theorem q_step {env : Env} {C : Query → Prop} {T : Str → Prop} {n : Nat} (hC : Closed env C T) (hcanon : ∀ q, C q → CanonOK env q)
+    (ih : RefAt env C T n) (w : World) (q : Query) (raw : Str) (extra : Extra) (input : Option Val) (uc : Bool)
     (hS : Sound env w) (hCq : C q) (huc : uc = true → input = none) :
     Refines env w (evalQ env (n+1) w q raw extra input uc).1 (evalQ env (n+1) w q raw extra input uc).2
       (fun m => refQ env m q raw extra input) := by
@@ -430,21 +482,21 @@ theorem q_step {env : Env} {C : Query → Prop} {n : Nat} (hC : Closed env C) (h
         simp only [hr1] at h2 h3
         obtain ⟨st', rfl, hcore⟩ := Outcome.sim_st_left h3
         have hse := EState.core_isError hcore
-        have hst := EState.core_eq_withStatus hcore
         simp only
-        cases hserr : st.isError
+        rcases Bool.eq_false_or_eq_true st.isError with hserr | hserr
+        rotate_left
         · -- successful predecessor: the last step
           have hserr' : st'.isError = false := by rw [← hse]; exact hserr
-          simp only [Bool.false_eq_true, if_false]
+          rw [if_neg (by rw [hserr]; simp)]
           unfold evalPost
           generalize hrem : q.preRem = r
           split
           · -- no step
-            refine ⟨hS1, fun _ => ⟨m1+1, c', h1, ?_, ?_⟩⟩
-            · simp only [refQ_succ_of_pre hres hr1, refAfter, hserr', Bool.false_eq_true, if_false, hrem, refPost,
-                List.append_nil]; exact h2
-            · simp only [refQ_succ_of_pre hres hr1, refAfter, hserr', Bool.false_eq_true, if_false, hrem, refPost]
-              rw [hst]; rfl
+            have href : (refQ env (m1+1) q raw extra input) =
+                (.st { st' with query := q.encode Gen.escapeTable }, c0) := by
+              simp only [refQ_succ_of_pre hres hr1, refAfter, hserr', Bool.false_eq_true, if_false, hrem, refPost,
+                List.append_nil]
+            exact Refines.intro hS1 (m1+1) c' href h1 h2 (core_setQuery hcore _)
           · -- file name
             next hd f =>
             have href : (refQ env (m1+1) q raw extra input) =
@@ -452,20 +504,16 @@ theorem q_step {env : Env} {C : Query → Prop} {n : Nat} (hC : Closed env C) (h
                   c0) := by
               simp only [refQ_succ_of_pre hres hr1, refAfter, hserr', Bool.false_eq_true, if_false, hrem, refPost,
                 List.append_nil]
-            have hcore2 : ({ st with filename := some f, extension := some (extensionOf f), query := q.encode Gen.escapeTable } : EState).core =
-                ({ st' with filename := some f, extension := some (extensionOf f), query := q.encode Gen.escapeTable } : EState).core := by
-              rw [hst]; rfl
-            refine ⟨(hS1.storeMeta _ _).fileW _ _ _ ?_, fun _ => ⟨m1+1, c', by simpa using h1, ?_, ?_⟩⟩
-            · intro hu hv hc
-              have hin := huc hu; subst hin
-              exact store_ok (hcanon q hCq).2 (by rw [href]) _ hcore2 hserr hv hc rfl
-            · rw [href]; exact h2
-            · rw [href]; exact hcore2
+            have hcore2 := core_file hcore f (q.encode Gen.escapeTable)
+            refine Refines.intro ((hS1.storeMeta _ _).fileW _ _ _ ?_) (m1+1) c' href (by simpa using h1) h2 hcore2
+            intro hu hv hc
+            have hin := huc hu; subst hin
+            exact store_ok (hcanon q hCq).2 (by rw [href]) _ hcore2 hserr hv hc rfl
           · -- action
             next hd a =>
             obtain ⟨p0, hp0⟩ := Query.preRem_some hrem
-            have hL : LinksIn C a.params := fun lq pos hmem => hC.link q p0 hd a lq pos hCq hp0 hmem
-            obtain ⟨hS2, hw2⟩ := ih.act w1 st a raw q.preParent extra uc hS1 hL
+            obtain ⟨hL, hSub⟩ := hC.act q p0 hd a hCq hp0
+            obtain ⟨hS2, hw2⟩ := ih.act w1 st a raw q.preParent extra uc hS1 hL hSub
             rcases hact : evalAction env n w1 st a raw q.preParent extra uc with ⟨w2, o2⟩
             rw [hact] at hS2 hw2
             simp only at hS2 hw2 ⊢
@@ -474,7 +522,7 @@ theorem q_step {env : Env} {C : Query → Prop} {n : Nat} (hC : Closed env C) (h
                 refPre env M q input = (.st st', c0) ∧ refAction env M st' a raw q.preParent extra = (o2', c2) := by
               intro hne
               obtain ⟨m2, c2', g1, g2, g3⟩ := hw2 hne
-              rw [refAction_core env m2 hcore] at g2 g3
+              simp only [refAction_core env m2 hcore] at g2 g3
               refine ⟨max m1 m2, c2', _, _, g1, g2, g3, ?_, ?_⟩
               · rw [refPre_mono_le env (Nat.le_max_left m1 m2) q input (by rw [hr1]; simp), hr1]
               · rw [refAction_mono_le env (Nat.le_max_right m1 m2) st' a raw q.preParent extra
@@ -482,66 +530,58 @@ theorem q_step {env : Env} {C : Query → Prop} {n : Nat} (hC : Closed env C) (h
             cases o2 with
             | unmodelled => exact ⟨hS2, by simp⟩
             | raised x y =>
-              refine ⟨hS2, fun _ => ?_⟩
               obtain ⟨M, c2', o2', c2, g1, g2, g3, hpM, haM⟩ := key (by simp)
               simp only [Outcome.sim_raised] at g3; subst g3
-              refine ⟨M+1, c' ++ c2', by rw [g1, h1, List.append_assoc], ?_, ?_⟩
-              · simp only [refQ_succ_of_pre hres hpM, refAfter, hserr', Bool.false_eq_true, if_false, hrem, refPost, haM]
-                exact h2.append g2
-              · simp only [refQ_succ_of_pre hres hpM, refAfter, hserr', Bool.false_eq_true, if_false, hrem, refPost, haM]
-                exact Outcome.sim_refl _
+              have href : (refQ env (M+1) q raw extra input) = (.raised x y, c0 ++ c2) := by
+                simp only [refQ_succ_of_pre hres hpM, refAfter, hserr', Bool.false_eq_true, if_false, hrem, refPost, haM]
+              exact Refines.intro hS2 (M+1) (c' ++ c2') href (by rw [g1, h1, List.append_assoc]) (h2.append g2)
+                (Outcome.sim_refl _)
             | parseError =>
-              refine ⟨hS2, fun _ => ?_⟩
               obtain ⟨M, c2', o2', c2, g1, g2, g3, hpM, haM⟩ := key (by simp)
               simp only [Outcome.sim_parseError] at g3; subst g3
-              refine ⟨M+1, c' ++ c2', by rw [g1, h1, List.append_assoc], ?_, ?_⟩
-              · simp only [refQ_succ_of_pre hres hpM, refAfter, hserr', Bool.false_eq_true, if_false, hrem, refPost, haM]
-                exact h2.append g2
-              · simp only [refQ_succ_of_pre hres hpM, refAfter, hserr', Bool.false_eq_true, if_false, hrem, refPost, haM]
-                exact Outcome.sim_refl _
+              have href : (refQ env (M+1) q raw extra input) = (.parseError, c0 ++ c2) := by
+                simp only [refQ_succ_of_pre hres hpM, refAfter, hserr', Bool.false_eq_true, if_false, hrem, refPost, haM]
+              exact Refines.intro hS2 (M+1) (c' ++ c2') href (by rw [g1, h1, List.append_assoc]) (h2.append g2)
+                (Outcome.sim_refl _)
             | st st2 =>
               obtain ⟨M, c2', o2', c2, g1, g2, g3, hpM, haM⟩ := key (by simp)
               obtain ⟨st2', rfl, hcore2⟩ := Outcome.sim_st_left g3
-              have hst2 := EState.core_eq_withStatus hcore2
               have href : (refQ env (M+1) q raw extra input) =
                   (.st { st2' with query := q.encode Gen.escapeTable }, c0 ++ c2) := by
                 simp only [refQ_succ_of_pre hres hpM, refAfter, hserr', Bool.false_eq_true, if_false, hrem, refPost, haM]
-              have hcore3 : ({ st2 with query := q.encode Gen.escapeTable } : EState).core =
-                  ({ st2' with query := q.encode Gen.escapeTable } : EState).core := by
-                rw [hst2]; rfl
-              refine ⟨hS2.admitW _ _ _ ?_, fun _ => ⟨M+1, c' ++ c2', ?_, ?_, ?_⟩⟩
-              · intro hu he hv hc
-                have hin := huc hu; subst hin
-                exact store_ok (hcanon q hCq).2 (by rw [href]) _ hcore3 he hv hc rfl
-              · simp only [calls_admitW]; rw [g1, h1, List.append_assoc]
-              · rw [href]; exact h2.append g2
-              · rw [href]; exact hcore3
+              have hcore3 := core_setQuery hcore2 (q.encode Gen.escapeTable)
+              refine Refines.intro (hS2.admitW _ _ _ ?_) (M+1) (c' ++ c2') href
+                (by simp only [calls_admitW]; rw [g1, h1, List.append_assoc]) (h2.append g2) hcore3
+              intro hu he hv hc
+              have hin := huc hu; subst hin
+              exact store_ok (hcanon q hCq).2 (by rw [href]) _ hcore3 he hv hc rfl
           · exact ⟨hS1, by simp⟩
         · -- failed predecessor: propagated
           have hserr' : st'.isError = true := by rw [← hse]; exact hserr
-          simp only [if_true]
-          refine ⟨hS1.storeMeta _ _, fun _ => ⟨m1+1, c', by simpa using h1, ?_, ?_⟩⟩
-          · simp only [refQ_succ_of_pre hres hr1, refAfter, hserr', if_true, List.append_nil]; exact h2
-          · simp only [refQ_succ_of_pre hres hr1, refAfter, hserr', if_true]
-            rw [hst]; rfl
+          rw [if_pos hserr]
+          have href : (refQ env (m1+1) q raw extra input) =
+              (.st { st' with data := .none, query := q.encode Gen.escapeTable }, c0) := by
+            simp only [refQ_succ_of_pre hres hr1, refAfter, hserr', if_true, List.append_nil]
+          exact Refines.intro (hS1.storeMeta _ _) (m1+1) c' href (by simpa using h1) h2 (core_propagate hcore _)
 
 /-! ### the refinement theorem -/
 
-theorem refAt_zero (env : Env) (C : Query → Prop) : RefAt env C 0 where
-  text := fun w t ug hS => by rw [evalText_zero]; exact ⟨hS, by simp⟩
+theorem refAt_zero (env : Env) (C : Query → Prop) (T : Str → Prop) : RefAt env C T 0 where
+  text := fun w t ug hS _ => by rw [evalText_zero]; exact ⟨hS, by simp⟩
   q := fun w q raw extra input uc hS _ _ => by rw [evalQ_zero]; exact ⟨hS, by simp⟩
-  act := fun w st a raw parent extra uc hS _ => by rw [evalAction_zero]; exact ⟨hS, by simp⟩
+  act := fun w st a raw parent extra uc hS _ _ => by rw [evalAction_zero]; exact ⟨hS, by simp⟩
   params := fun w ps raw parent hS _ => by rw [evalParams_zero]; exact ⟨hS, by simp⟩
 
 /-- R-eval: for every fuel, all four evaluator functions refine their reference counterparts -/
-theorem refines {env : Env} {C : Query → Prop} (hC : Closed env C) (hcanon : ∀ q, C q → CanonOK env q) :
-    ∀ n, RefAt env C n
-  | 0 => refAt_zero env C
+theorem refines {env : Env} {C : Query → Prop} {T : Str → Prop} (hC : Closed env C T)
+    (hcanon : ∀ q, C q → CanonOK env q) :
+    ∀ n, RefAt env C T n
+  | 0 => refAt_zero env C T
   | n + 1 =>
     have ih := refines hC hcanon n
-    { text := fun w t ug hS => text_step hC ih w t ug hS
+    { text := fun w t ug hS hT => text_step hC ih w t ug hS hT
       q := fun w q raw extra input uc hS hCq huc => q_step hC hcanon ih w q raw extra input uc hS hCq huc
-      act := fun w st a raw parent extra uc hS hL => act_step ih w st a raw parent extra uc hS hL
+      act := fun w st a raw parent extra uc hS hL hSub => act_step ih w st a raw parent extra uc hS hL hSub
       params := fun w ps raw parent hS hL => params_step ih w ps raw parent hS hL }
 
 end Liquer
